@@ -2,7 +2,7 @@
 (* Family "refresh": SetObj v1 ; NewEmpty ; CopyTo ; SetObj v2 ; CopyTo ; CopyTo (thorough: ; SetObj v3 ; CopyTo).  Serves C09. *)
 EXTENDS Shapes, TLC, Json
 CONSTANTS MCDeep, MCLong
-VARIABLES sh, M, obj, tf, dg, pn, pc, hist, viol, aux
+VARIABLES sh, M, Mi, obj, tf, dg, pn, pc, hist, viol, aux
 MCShapes == RefreshShapes
 MCScript == IF MCLong THEN <<"SetObj", "NewEmpty", "CopyTo", "SetObj", "CopyTo", "CopyTo", "SetObj", "CopyTo">> ELSE <<"SetObj", "NewEmpty", "CopyTo", "SetObj", "CopyTo", "CopyTo">>
 MCProps == {"C09"}
